@@ -5,4 +5,18 @@ cd /verif || exit 2
 if [ ! -x /verif/bin/govc ] || [ -n "$(find /verif/engine -name '*.go' -newer /verif/bin/govc 2>/dev/null | head -1)" ]; then
   (cd /verif/engine && go build -o /verif/bin/govc ./cmd/govc) || { echo "govc build failed"; exit 2; }
 fi
-exec /verif/bin/govc check "$1" --tier "${2:-quick}"
+id="$1"; tier="${2:-quick}"
+# resource guard: on the unchanged tree every check finishes in about a minute (quick) / a few minutes (thorough) and
+# stays far below the memory limit. A tree on which the verifier cannot finish is reported as undecided, not hung.
+limit=1500; [ "$tier" = thorough ] && limit=5400
+out="${VERIF_OUT_DIR:-/verif}"
+( ulimit -v 50331648; exec timeout -k 10 "$limit" /verif/bin/govc check "$id" --tier "$tier" )
+rc=$?
+if [ $rc -eq 124 ] || [ $rc -eq 137 ] || [ $rc -eq 134 ] || [ $rc -eq 2 -a -n "$VERIF_RESOURCE_AS_UNDECIDED" ]; then
+  mkdir -p "$out/replays/$id"
+  f="$out/replays/$id/resource-limit.json"
+  printf '{"property":"%s","obligation":"%s#resource-limit","status":"undecided","reason":"the verifier did not finish within %s s / 48 GB on this tree (exit code %s); on the unchanged tree it does","tier":"%s"}\n' "$id" "$id" "$limit" "$rc" "$tier" > "$f"
+  echo "VIOLATION property=$id replay=$f obligation=$id#resource-limit status=undecided no-failing-input-found"
+  exit 1
+fi
+exit $rc
